@@ -25,7 +25,10 @@ impl FromStr for SpacedRune {
       match c {
         'A'..='Z' => rune.push(c),
         '.' | '•' => {
-          let flag = 1 << rune.len().checked_sub(1).ok_or(Error::LeadingSpacer)?;
+          let flag = u32::try_from(rune.len().checked_sub(1).ok_or(Error::LeadingSpacer)?)
+            .ok()
+            .and_then(|shift| 1u32.checked_shl(shift))
+            .ok_or(Error::Rune(rune::Error::Range))?;
           if spacers & flag != 0 {
             return Err(Error::DoubleSpacer);
           }
